@@ -31,6 +31,9 @@ CHECKS = {
  "C07": dict(cat="exploration", technique="complete product over the bad-debt/insurance/deposit threshold lattice x depositor distributions x signers x mints through the real handle_bankruptcy instruction, exact-rational effect oracle; BFS over the admin alphabet from killed banks",
    text="For every combination of bank archetype (SPL, Token-2022 with two fee settings, plain Token-2022), depositor distribution, insurance balance, bad debt at/around every threshold (with fractional parts), liability share value and signer/permissionless combination, plus the eligibility / target-bank / account-flag sub-product, the real instruction decides; every acceptance is judged for real bad debt, entitlement, insurance-first cover, exact pro-rata socialisation, non-negative share value, the kill rule, account disabling and debt clearance; from killed banks a 14-action admin alphabet is searched to depth 2/3 and the bank must stay killed.",
    ref="6 C07"),
+ "C08": dict(cat="exploration", technique="complete matrix enumeration through the real entrypoint: every instruction x signer identity x account state, and every instruction x account slot x substitute (incl. cooperating bank-bundle substitutions), judged by a role table and a reference consistency relation",
+   text="For 55 instructions a golden call is asserted to succeed; then every cell of instruction x 12 signer identities, every cell of balance-changing instruction x {frozen, receivership, flash-loan, disabled} x signers, and every cell of instruction x account slot x substitute (foreign group's accounts, other banks' vaults/authorities/oracles, wrong-kind vaults, identical-bytes look-alikes at another address, wrong owner program, wrong discriminator, wrong program, a foreign bank together with all its vaults) is executed; cells outside the statement's role table, and substitutions that make the instruction's accounts inconsistent, must be refused (or provably ignored: bit-identical outcome).",
+   ref="6 C08"),
  "C15": dict(cat="model_checking", technique="explicit-state search to the fixpoint of the pause machine driven through the real instructions, time-abstract state key, region grid plus bounded off-grid deviations",
    text="All reachable states of the emergency-pause machine (pause / admin unpause / permissionless unpause / propagate / time ticks on the 600 s region grid plus <=1 (quick) or <=2 (thorough) one-second deviations) are explored to the fixpoint through marginfi::entry; every pause edge and every state is checked against the 30-minute push, 60-minute horizon, three-per-window and 24-hour reset bounds, and a user deposit probe shows blocking ends without anyone acting.",
    ref="6 C15"),
